@@ -47,8 +47,57 @@ def expected(acc, dt, periods, xi, true_spectra):
     return np.array(sd), np.array(sv), np.array(sa)
 
 
+def replay_gen_response_spectrum(info, ce):
+    """object-level spectra against pseudo_response_spectra of the record interpolated at the REQUIRED step (or any finer integer
+    subdivision), for a request made on a fresh object or after an earlier request with other periods / min_dt_ratio"""
+    import eqsig
+    from eqsig import sdof
+    from eqsig.fns.time_step import interp_array_to_approx_dt
+    pre, ratio = info.get('pre', 'fresh'), info.get('ratio', 4)
+    rng = np.random.RandomState(12)
+    tried = 0
+    for n in (60, 257):
+        for dt in (0.01, 0.02):
+            x = rng.randn(n)
+            for periods in ([0.02, 0.04, 0.1, 0.5], [0.0, 0.03, 0.2, 1.0], [0.3, 1.5]):
+                if bool(info.get('lead_zero')) != (periods[0] == 0) and pre == 'fresh':
+                    continue
+                a = eqsig.AccSignal(x.copy(), dt)
+                hist = []
+                if pre != 'fresh':
+                    for p0, r0 in (([0.1, 0.5, 2.0], 2),):                   # needs dt/2 at dt = 0.01: a coarse interpolation is now cached
+                        a.gen_response_spectrum(response_times=np.array(p0), xi=0.02, min_dt_ratio=r0)
+                        hist.append('gen_response_spectrum(response_times=%s, xi=0.02, min_dt_ratio=%d)' % (p0, r0))
+                a.gen_response_spectrum(response_times=np.array(periods), xi=0.05, min_dt_ratio=ratio)
+                hist.append('gen_response_spectrum(response_times=%s, xi=0.05, min_dt_ratio=%d)' % (periods, ratio))
+                got = (np.asarray(a.s_d), np.asarray(a.s_v), np.asarray(a.s_a))
+                tried += 1
+                t_min = periods[1] if periods[0] == 0 else periods[0]
+                target = max(t_min / 20, dt / ratio)
+                ok = False
+                k0 = int(np.ceil(dt / target - 1e-12)) if target < dt else 1
+                for k in range(k0, k0 + 40):                 # the required subdivision or any finer one
+                    y = np.interp(np.arange((n - 1) * k + 1) / k, np.arange(n), x) if k > 1 else x
+                    want = sdof.pseudo_response_spectra(y, dt / k, np.array(periods), 0.05)
+                    for m in (len(y), len(y) - 1, len(y) + k - 1, n * k):
+                        yy = np.interp(np.arange(m) / k, np.arange(n), x) if k > 1 else x
+                        w2 = sdof.pseudo_response_spectra(yy, dt / k, np.array(periods), 0.05)
+                        if all(g.shape == w.shape and np.allclose(g, w, rtol=1e-9, atol=1e-12) for g, w in zip(got, w2)):
+                            ok = True
+                            break
+                    if ok:
+                        break
+                if not ok:
+                    return dict(status='confirmed', observed={'s_a': got[2].tolist()},
+                                detail='s_d/s_v/s_a are not the spectra of the record integrated at a step <= max(T_min/20, dt/min_dt_ratio) = %.6g (dt = %g)' % (target, dt),
+                                input={'values': x.tolist(), 'dt': dt, 'history': hist})
+    return dict(status='not-reproduced', detail='object-level spectra equal the spectra of the suitably interpolated record on %d battery histories' % tried)
+
+
 def replay(info, ce):
     from eqsig import sdof
+    if info.get('entry') == 'gen_response_spectrum':
+        return replay_gen_response_spectrum(info, ce)
     true_spectra = info.get('entry') == 'true_response_spectra'
     fn = sdof.true_response_spectra if true_spectra else sdof.pseudo_response_spectra
     kind, pdtype, lead_zero = info.get('container', 'array'), info.get('pdtype', 'float'), info.get('lead_zero', False)
